@@ -42,10 +42,11 @@ func (m *Monitor) fail(sig, what string) {
 }
 
 type preMig struct {
-	sigValid bool
-	rewards  map[int64]string // validator id -> rewards of the source
-	dump     map[string][]string
-	vals     []int64
+	usedBefore map[int]bool // actors of earlier accepted migrations (remembered by the harness, not read from a store)
+	sigValid   bool
+	rewards    map[int64]string // validator id -> rewards of the source
+	dump       map[string][]string
+	vals       []int64
 }
 
 func (m *Monitor) rewards(a sdk.AccAddress, v sdk.ValAddress) string {
@@ -69,7 +70,10 @@ func (m *Monitor) addrOf(id int64) []byte {
 
 func (m *Monitor) BeforeMigrate(op Op, pre *Snap) *preMig {
 	h := m.h
-	pm := &preMig{rewards: map[int64]string{}}
+	pm := &preMig{rewards: map[int64]string{}, usedBefore: map[int]bool{}}
+	for k := range h.used {
+		pm.usedBefore[k] = true
+	}
 	// signature: does go-ethereum recover the target's address from it over keccak(prefix, from, to)?
 	if op.Sig != "empty" && op.Sig != "garbage" && op.A != op.B {
 		digestSigned := migratetypes.MigrateAccountSignatureHash(h.acc(op.SF), h.hexAddr(op.ST).Bytes())
@@ -254,6 +258,15 @@ func (m *Monitor) AfterMigrate(op Op, pm *preMig, pre, post *Snap, err error) {
 	for _, r := range pre.Recs {
 		if r.A == from || r.A == to {
 			m.fail("C14:once", fmt.Sprintf("migration accepted although address %d already has a migration record: %s", r.A, role))
+		}
+	}
+	for _, x := range []int{op.A, op.B} {
+		if pm.usedBefore[x] {
+			sig := "C14:once:history"
+			if h.imported {
+				sig = "C14:restart:reused"
+			}
+			m.fail(sig, fmt.Sprintf("migration accepted although address %d took part in an earlier accepted migration of this history (imported genesis: %v; its record is not in the store): %s", h.id(x), h.imported, role))
 		}
 	}
 	for _, v := range pre.Vals {
@@ -615,6 +628,21 @@ func (m *Monitor) AfterSlash(op Op, pre, post *Snap, err error) {
 					m.h.tags["target-slashed"] = true
 				}
 			}
+		}
+	}
+}
+
+// AfterImport: a chain restarted from its exported genesis still knows every migration
+func (m *Monitor) AfterImport(op Op, pre, post *Snap) {
+	have := map[int64]bool{}
+	for _, r := range post.Recs {
+		have[r.A] = true
+	}
+	for _, r := range pre.Recs {
+		if !have[r.A] {
+			m.h.tags["import-lost-record"] = true
+			m.fail("C14:restart:records-lost", fmt.Sprintf("after export + InitChain of the exported genesis the migration record of address %d (flag %d, other %d) is gone: %d records before, %d after", r.A, r.Flag, r.Other, len(pre.Recs), len(post.Recs)))
+			return
 		}
 	}
 }
